@@ -98,3 +98,96 @@ theorem C01_src_account_ops (b : Qs.Broker α) (amount : α) :
         simp [Qs.Broker.withdrawAccount, Qs.Broker.withdrawAccountMaster, lt_eq, h, h2]
 
 end Qs.Tie
+
+namespace Qs.Tie
+
+variable {α : Type} [Field α] [LinearOrder α] [IsStrictOrderedRing α] [FloorRing α] [NumOps α] [LawfulNumOps α]
+
+/-- **C01 / C15 on the source** (transfer from the master account to a portfolio, broker side).  Refused with `ValueError` for a
+negative amount, `KeyError` for an unknown portfolio id, `ValueError` when the amount exceeds the master balance — in that order;
+otherwise the portfolio's own `subscribe_funds` is handed the broker's clock and **exactly the amount by which the master
+balance is reduced**: the transfer is zero-sum. -/
+theorem C01_src_subscribePortfolio (pids : List String) (clock : Int) (master : α) (pid : String) (amount : α) :
+    (amount < 0 → Qs.Gen.Broker.subscribePortfolio pids clock master pid amount = .error .value) ∧
+    (¬ amount < 0 → pid ∉ pids → Qs.Gen.Broker.subscribePortfolio pids clock master pid amount = .error .key) ∧
+    (¬ amount < 0 → pid ∈ pids → master < amount →
+      Qs.Gen.Broker.subscribePortfolio pids clock master pid amount = .error .value) ∧
+    (∀ x, Qs.Gen.Broker.subscribePortfolio pids clock master pid amount = .ok x →
+      x.master + x.amount = master ∧ x.amount = amount ∧ x.time = clock ∧ 0 ≤ x.master ∧ 0 ≤ x.amount) := by
+  rw [tie_Broker_subscribePortfolio]
+  refine ⟨?_, ?_, ?_, ?_⟩
+  · intro h; simp [Qs.Broker.subscribePortfolioXfer, lt_eq, h]
+  · intro h0 hp; simp [Qs.Broker.subscribePortfolioXfer, lt_eq, h0, hp]
+  · intro h0 hp hm; simp [Qs.Broker.subscribePortfolioXfer, lt_eq, h0, hp, hm]
+  · intro x hx
+    by_cases h0 : amount < 0
+    · simp [Qs.Broker.subscribePortfolioXfer, lt_eq, h0] at hx
+    · by_cases hp : pid ∈ pids
+      · by_cases hm : master < amount
+        · simp [Qs.Broker.subscribePortfolioXfer, lt_eq, h0, hp, hm] at hx
+        · simp [Qs.Broker.subscribePortfolioXfer, lt_eq, h0, hp, hm] at hx
+          subst hx
+          have h1 := not_lt.mp h0
+          have h2 := not_lt.mp hm
+          refine ⟨by ring, rfl, rfl, by linarith, h1⟩
+      · simp [Qs.Broker.subscribePortfolioXfer, lt_eq, h0, hp] at hx
+
+/-- **C01 / C15 on the source** (transfer from a portfolio back to the master account, broker side): same refusals, the third
+one against the portfolio's cash; an accepted transfer credits the master account with exactly the amount handed to the
+portfolio's `withdraw_funds`. -/
+theorem C01_src_withdrawPortfolio (pids : List String) (clock : Int) (master pfCash : α) (pid : String) (amount : α) :
+    (amount < 0 → Qs.Gen.Broker.withdrawPortfolio pids clock master pfCash pid amount = .error .value) ∧
+    (¬ amount < 0 → pid ∉ pids → Qs.Gen.Broker.withdrawPortfolio pids clock master pfCash pid amount = .error .key) ∧
+    (¬ amount < 0 → pid ∈ pids → pfCash < amount →
+      Qs.Gen.Broker.withdrawPortfolio pids clock master pfCash pid amount = .error .value) ∧
+    (∀ x, Qs.Gen.Broker.withdrawPortfolio pids clock master pfCash pid amount = .ok x →
+      x.master - x.amount = master ∧ x.amount = amount ∧ x.time = clock ∧ x.amount ≤ pfCash ∧ 0 ≤ x.amount) := by
+  rw [tie_Broker_withdrawPortfolio]
+  refine ⟨?_, ?_, ?_, ?_⟩
+  · intro h; simp [Qs.Broker.withdrawPortfolioXfer, lt_eq, h]
+  · intro h0 hp; simp [Qs.Broker.withdrawPortfolioXfer, lt_eq, h0, hp]
+  · intro h0 hp hm; simp [Qs.Broker.withdrawPortfolioXfer, lt_eq, h0, hp, hm]
+  · intro x hx
+    by_cases h0 : amount < 0
+    · simp [Qs.Broker.withdrawPortfolioXfer, lt_eq, h0] at hx
+    · by_cases hp : pid ∈ pids
+      · by_cases hm : pfCash < amount
+        · simp [Qs.Broker.withdrawPortfolioXfer, lt_eq, h0, hp, hm] at hx
+        · simp [Qs.Broker.withdrawPortfolioXfer, lt_eq, h0, hp, hm] at hx
+          subst hx
+          have h1 := not_lt.mp h0
+          have h2 := not_lt.mp hm
+          refine ⟨by ring, rfl, rfl, h2, h1⟩
+      · simp [Qs.Broker.withdrawPortfolioXfer, lt_eq, h0, hp] at hx
+
+/-- the model's portfolio transfers are these kernels lifted to the broker state: the broker-side refusals are the kernel's,
+and on acceptance the portfolio's own method receives the kernel's time and amount and, if it accepts too, the master
+balance becomes the kernel's (`ids` is the list of portfolio ids, in which the kernel looks the id up) -/
+theorem C01_src_portfolio_transfers (b : Qs.Broker α) (pid : String) (amount : α) :
+    b.subscribePortfolio pid amount =
+      (match Qs.Gen.Broker.subscribePortfolio (b.entries.map (·.pf.id)) b.clock b.master pid amount, b.find? pid with
+       | .error e, _ => (b, some e)
+       | .ok _, none => (b, some .key)
+       | .ok x, some en =>
+         match en.pf.subscribe x.time x.amount with
+         | (pf, some err) => (b.setPf pf, some err)
+         | (pf, none) => ({ (b.setPf pf) with master := x.master }, none)) := by
+  rw [tie_Broker_subscribePortfolio]
+  have hmem : pid ∈ b.entries.map (·.pf.id) ↔ ∃ e, b.find? pid = some e := by
+    rw [← Qs.has_iff_find_c01, Qs.has_iff]
+    simp only [List.mem_map]
+  by_cases h0 : amount < 0
+  · simp [Qs.Broker.subscribePortfolio, Qs.Broker.subscribePortfolioXfer, lt_eq, h0]
+  · cases hf : b.find? pid with
+    | none =>
+      have hp : pid ∉ b.entries.map (·.pf.id) := by
+        intro h; obtain ⟨e, he⟩ := hmem.mp h; rw [hf] at he; cases he
+      simp [Qs.Broker.subscribePortfolio, Qs.Broker.subscribePortfolioXfer, lt_eq, h0, hf, hp]
+    | some en =>
+      have hp : pid ∈ b.entries.map (·.pf.id) := hmem.mpr ⟨en, hf⟩
+      by_cases hm : b.master < amount
+      · simp [Qs.Broker.subscribePortfolio, Qs.Broker.subscribePortfolioXfer, lt_eq, h0, hf, hp, hm]
+      · simp [Qs.Broker.subscribePortfolio, Qs.Broker.subscribePortfolioXfer, lt_eq, h0, hf, hp, hm]
+        rcases en.pf.subscribe b.clock amount with ⟨pf, _ | err⟩ <;> rfl
+
+end Qs.Tie
